@@ -152,3 +152,182 @@ pub fn replay(rounds: u8, lines: impl Iterator<Item = String>) {
     }
     tl.finish(serde_json::json!({"rounds": rounds}));
 }
+
+
+// ---------------------------------------------------------------------------------------------
+// The same PingPong.tla behaviours over the shipped VDAFs (Prio3: one round; Poplar1: two rounds).
+// Abstract payloads are mapped to the bytes of an honest broadcast execution: S(j, r) = aggregator j's
+// round-r verifier share, GoodM(r) = the round-r verifier message, G = an undecodable byte. Expected from
+// the model: whether the delivery is refused, the next state, the outbound message and the released
+// output share (which must be the broadcast execution's). Error kinds are compared for
+// PeerMessageMismatch only (a real VDAF may refuse a bad share earlier than the abstract one does).
+// ---------------------------------------------------------------------------------------------
+struct Tables { s: Vec<Vec<Vec<u8>>>, m: Vec<Vec<u8>>, st: Vec<Vec<Vec<u8>>>, out: Vec<Vec<u8>> }
+impl Tables {
+    fn payload(&self, v: &Value) -> Result<Vec<u8>, String> {
+        let a = v.as_array().unwrap();
+        match a[0].as_str().unwrap() {
+            "G" => Ok(vec![0xff]),
+            "S" => Ok(self.s[a[1].as_u64().unwrap() as usize][a[2].as_u64().unwrap() as usize].clone()),
+            "M" => {
+                let r = a[1].as_u64().unwrap() as usize;
+                let good = a[2] == serde_json::json!(["S", 0, r]) && a[3] == serde_json::json!(["S", 1, r]);
+                if good { Ok(self.m[r].clone()) } else { Err("a verifier message built from out-of-place shares reached the wire".into()) }
+            }
+            _ => unreachable!(),
+        }
+    }
+    fn msg(&self, v: &Value) -> Result<PingPongMessage, String> {
+        Ok(match v["k"].as_str().unwrap() {
+            "initialize" => PingPongMessage::Initialize { verifier_share: self.payload(&v["vs"])? },
+            "continue" => PingPongMessage::Continue { verifier_message: self.payload(&v["vm"])?, verifier_share: self.payload(&v["vs"])? },
+            _ => PingPongMessage::Finish { verifier_message: self.payload(&v["vm"])? },
+        })
+    }
+}
+
+fn reload<A, const VK: usize, P>(_like: &PingPongContinuation<VK, 16, A>, param: &P, enc: &[u8]) -> Result<PingPongContinuation<VK, 16, A>, CodecError>
+where A: vdaf::Aggregator<VK, 16>, A::VerifyState: ParameterizedDecode<P> {
+    PingPongContinuation::<VK, 16, A>::get_decoded_with_param(param, enc)
+}
+
+macro_rules! real_replay {
+    ($name:expr, $v:expr, $vk:expr, $key:expr, $ctx:expr, $ap:expr, $nonce:expr, $public:expr, $shares:expr, $rounds:expr, $hists:expr, $tl:expr) => {{
+        let v = &$v; let key = &$key; let ctx: &[u8] = $ctx; let ap = &$ap; let nonce = &$nonce; let public = &$public; let shares = &$shares;
+        let rounds: usize = $rounds;
+        // honest broadcast execution
+        let tables = crate::util::guarded(|| {
+            let mut t = Tables { s: vec![vec![], vec![]], m: vec![], st: vec![vec![], vec![]], out: vec![vec![], vec![]] };
+            let mut states = Vec::new();
+            let mut cur = Vec::new();
+            for j in 0..2usize {
+                let (st, sh) = v.verify_init(key, ctx, j, ap, nonce, public, &shares[j]).expect("honest verify_init");
+                t.st[j].push(st.get_encoded().unwrap()); t.s[j].push(sh.get_encoded().unwrap());
+                states.push(st); cur.push(sh);
+            }
+            for r in 0..rounds {
+                let m = v.verifier_shares_to_message(ctx, ap, cur.clone()).expect("honest s2m");
+                t.m.push(m.get_encoded().unwrap());
+                let mut next_states = Vec::new(); let mut next = Vec::new();
+                for j in 0..2usize {
+                    match v.verify_next(ctx, states[j].clone(), m.clone()).expect("honest verify_next") {
+                        VerifyTransition::Continue(st, sh) => { t.st[j].push(st.get_encoded().unwrap()); t.s[j].push(sh.get_encoded().unwrap()); next_states.push(st); next.push(sh); }
+                        VerifyTransition::Finish(o) => { assert_eq!(r + 1, rounds, "finished early"); t.out[j] = o.get_encoded().unwrap(); }
+                    }
+                }
+                if r + 1 < rounds { assert_eq!(next.len(), 2, "round count"); }
+                states = next_states; cur = next;
+            }
+            t
+        });
+        let tables = match tables { Ok(t) => Some(t), Err(p) => { $tl.mismatch(&format!("pingpong/{}/broadcast_panic", $name), serde_json::json!({"panic": p})); None } };
+        if let Some(t) = tables {
+            for hist in $hists.iter() {
+                $tl.evaluations += 1;
+                let r = crate::util::guarded(|| -> Result<(), String> {
+                    let mut l = None; let mut h = None; let mut hstarted = false;
+                    for (i, st) in hist.as_array().unwrap().iter().enumerate() {
+                        let step = |e: String| format!("step {i}: {e}");
+                        match st["a"].as_str().unwrap() {
+                            "linit" => {
+                                let c = v.leader_initialized(key, ctx, ap, nonce, public, &shares[0]).map_err(|e| step(ekind(&e).into()))?;
+                                if c.message != t.msg(&st["res"]["msg"]).map_err(step)? { return Err(step("linit msg".into())); }
+                                if c.verifier_state.get_encoded().unwrap() != t.st[0][0] { return Err(step("linit state".into())); }
+                                l = Some(c.verifier_state);
+                            }
+                            a => {
+                                let to_leader = a == "ldeliver";
+                                let m = t.msg(&st["m"]).map_err(step)?;
+                                let cont = if to_leader { v.leader_continued(ctx, ap, l.clone().unwrap(), &m) }
+                                    else if !hstarted { v.helper_initialized(key, ctx, ap, nonce, public, &shares[1], &m) }
+                                    else { v.helper_continued(ctx, ap, h.clone().unwrap(), &m) };
+                                let exp_c = &st["cont"]; let exp = &st["res"];
+                                let host = if to_leader { 0usize } else { 1 };
+                                let res = match cont {
+                                    Err(e) => {
+                                        if exp["t"] != "err" { return Err(step(format!("unexpected refusal {}", ekind(&e)))); }
+                                        if exp_c["t"] == "err" && exp_c["e"] == "PeerMessageMismatch" && ekind(&e) != "PeerMessageMismatch" { return Err(step(format!("err kind {} vs PeerMessageMismatch", ekind(&e)))); }
+                                        None
+                                    }
+                                    Ok(c) => {
+                                        if exp_c["t"] == "err" { return Err(step("expected continuation error".into())); }
+                                        let r1 = c.evaluate(ctx, v);
+                                        if let Ok(enc) = Encode::get_encoded(&c) {
+                                            // persist / reload / evaluate again
+                                            let c2 = reload(&c, &(v, host), &enc).map_err(|_| step("decode continuation".into()))?;
+                                            if c2 != c { return Err(step("reloaded continuation differs".into())); }
+                                            let r2 = c2.evaluate(ctx, v);
+                                            match (&r1, &r2) { (Ok(a), Ok(b)) if a == b => {}, (Err(a), Err(b)) if ekind(a) == ekind(b) => {}, _ => return Err(step("re-evaluation differs".into())) }
+                                        } else if exp_c["t"] == "transition" { return Err(step("transition continuation does not encode".into())); }
+                                        match r1 { Ok(s) => Some(s), Err(e) => { if exp["t"] != "err" { return Err(step(format!("unexpected evaluation error {}", ekind(&e)))); } None } }
+                                    }
+                                };
+                                match (exp["t"].as_str().unwrap(), res) {
+                                    ("err", None) => {}
+                                    ("err", Some(_)) => return Err(step("out-of-place message accepted".into())),
+                                    ("continued", Some(PingPongState::Continued(Continued { message, verifier_state }))) => {
+                                        if message != t.msg(&exp["msg"]).map_err(step)? { return Err(step("continued msg".into())); }
+                                        let r = exp["vs"][2].as_u64().unwrap() as usize;
+                                        if verifier_state.get_encoded().unwrap() != t.st[host][r] { return Err(step("continued state".into())); }
+                                        if to_leader { l = Some(verifier_state); } else { h = Some(verifier_state); hstarted = true; }
+                                    }
+                                    ("finished_with_outbound", Some(PingPongState::FinishedWithOutbound { output_share, message })) => {
+                                        if message != t.msg(&exp["msg"]).map_err(step)? { return Err(step("fwo msg".into())); }
+                                        if output_share.get_encoded().unwrap() != t.out[host] { return Err(step("fwo output share differs from broadcast".into())); }
+                                        if to_leader { l = None; } else { h = None; hstarted = true; }
+                                    }
+                                    ("output", Some(PingPongState::Finished { output_share })) => {
+                                        if output_share.get_encoded().unwrap() != t.out[host] { return Err(step("output share differs from broadcast".into())); }
+                                        if to_leader { l = None; } else { h = None; hstarted = true; }
+                                    }
+                                    (tt, Some(_)) => return Err(step(format!("expected {tt}, got another state"))),
+                                    (tt, None) => return Err(step(format!("expected {tt}, got a refusal"))),
+                                }
+                            }
+                        }
+                    }
+                    Ok(())
+                });
+                match r {
+                    Ok(Ok(())) => {}
+                    Ok(Err(e)) => { let what = e.splitn(2, ": ").nth(1).unwrap_or(&e).to_string();
+                        $tl.mismatch(&format!("pingpong/{}/{}", $name, what.split_whitespace().take(4).collect::<Vec<_>>().join("_")), serde_json::json!({"error": e, "history": hist})); }
+                    Err(p) => $tl.mismatch(&format!("pingpong/{}/panic", $name), serde_json::json!({"panic": p, "history": hist})),
+                }
+            }
+        }
+    }};
+}
+
+pub fn replay_real(rounds: u8, seed: u64, lines: impl Iterator<Item = String>) {
+    use prio::idpf::IdpfInput;
+    use prio::vdaf::poplar1::{Poplar1, Poplar1AggregationParam};
+    use prio::vdaf::prio3::Prio3;
+    use prio::vdaf::{Aggregator, Client};
+    let mut tl = crate::util::Tally::new();
+    let hists: Vec<Value> = lines.map(|l| serde_json::from_str(&l).unwrap()).collect();
+    let mut rng = crate::util::Sm(seed);
+    let nonce: [u8; 16] = rng.bytes(16).try_into().unwrap();
+    let key32: [u8; 32] = rng.bytes(32).try_into().unwrap();
+    if rounds == 1 {
+        { let v = Prio3::new_count(2).unwrap(); let (p, s) = v.shard(b"c12", &true, &nonce).unwrap();
+          real_replay!("Prio3Count", v, 32, key32, b"c12", (), nonce, p, s, 1, hists, tl); }
+        { let v = Prio3::new_histogram(2, 5, 2).unwrap(); let (p, s) = v.shard(b"c12", &3usize, &nonce).unwrap();
+          real_replay!("Prio3Histogram", v, 32, key32, b"c12", (), nonce, p, s, 1, hists, tl); }
+        { use prio::field::Field128; use prio::flp::{gadgets::{Mul, ParallelSum}, types::SumVec}; use prio::vdaf::xof::XofTurboShake128;
+          let v = Prio3::<SumVec<Field128, ParallelSum<Field128, Mul>>, XofTurboShake128, 32>::new(2, 2, 0xFFFF_1203, SumVec::new(3, 4, 3).unwrap()).unwrap();
+          let (p, s) = v.shard(b"c12", &vec![1, 0, 3, 2], &nonce).unwrap();
+          real_replay!("Prio3SumVecMultiproof", v, 32, key32, b"c12", (), nonce, p, s, 1, hists, tl); }
+    } else if rounds == 2 {
+        for (name, bits, level) in [("Poplar1Inner", 4usize, 1usize), ("Poplar1Leaf", 3, 2)] {
+            let v = Poplar1::new_turboshake128(bits);
+            let input = IdpfInput::from_bools(&(0..bits).map(|i| i % 2 == 0).collect::<Vec<_>>());
+            let (p, s) = v.shard(b"c12", &input, &nonce).unwrap();
+            let prefixes: Vec<IdpfInput> = vec![input.prefix(level), IdpfInput::from_bools(&(0..=level).map(|_| true).collect::<Vec<_>>())];
+            let mut prefixes = prefixes; prefixes.sort(); prefixes.dedup();
+            let ap = Poplar1AggregationParam::try_from_prefixes(prefixes).unwrap();
+            real_replay!(name, v, 32, key32, b"c12", ap, nonce, p, s, 2, hists, tl);
+        }
+    }
+    tl.finish(serde_json::json!({"rounds": rounds, "real": true}));
+}
